@@ -2,6 +2,7 @@ package eng
 
 import (
 	"fmt"
+	"time"
 	"go/token"
 	"go/types"
 	"math/big"
@@ -37,6 +38,8 @@ func (e *Engine) VerifyFunc(fn *ssa.Function, blk *Block, props []string) (err e
 	e.curFunc = FuncKey(fn)
 	e.curProps = props
 	e.freshRefs = map[*Term]bool{}
+	e.funcStart = time.Now()
+	e.funcTermBase = e.C.NumTerms()
 	e.localArrays = nil
 	if blk != nil && len(blk.Props) > 0 && props == nil {
 		e.curProps = blk.Props
@@ -99,6 +102,9 @@ func (e *Engine) VerifyFunc(fn *ssa.Function, blk *Block, props []string) (err e
 		}
 		for _, cl := range blk.Of("requires") {
 			g := x.evalClauseBool(cl, s, token.NoPos)
+			if e.Trace {
+				fmt.Printf("  requires %q -> %s\n", cl.Text, shortTerm(g))
+			}
 			s.assume(c, g)
 		}
 		// "assume": an environment assumption of this function's proof that
